@@ -416,6 +416,30 @@ def run(ctx):
             shutil.rmtree(root, ignore_errors=True)
     regenerate_smaller()
 
+    # (iii-f) every kind of reference points at a definition that is declared *later* in the file; numeric literals in every accepted spelling
+    def late_declarations():
+        model = ('Stock: !map {keys: PartNumber, values: Level}\n'
+                 'Shelf: !record\n  fields:\n    stock: Stock\n    byPart: PartNumber->Count\n    grid: !array {items: Cell, dimensions: [2, 2]}\n    row: Cell*\n    three: Cell*3\n'
+                 '    either: [Count, Label]\n    maybe: Cell?\n    level: Level\n    perm: Perm\n    boxed: Box<Cell>\n    nested: Box<Box<Count>>\n'
+                 '  computedFields:\n    half: .5\n    two: 2.\n    kilo: 1.e3\n    padded: 007.5\n    tiny: 1e-3\n    hex: 0x1F\n    neg: -.25\n    sum: count0 + 0.5\n    count0: size(row) as int\n'
+                 'Level: !enum\n  base: Code\n  values: [low, high]\nPerm: !flags\n  base: Code\n  values: [r, w]\n'
+                 '"Box<T>": !record\n  fields:\n    content: T\n    tag: Label\n'
+                 'LateProto: !protocol\n  sequence:\n    shelf: Shelf\n    items: !stream {items: Box<PartNumber>}\n'
+                 'Cell: !record\n  fields:\n    v: Count\nCount: uint32\nLabel: string\nPartNumber: string\nCode: uint8\n')
+        root = os.path.join(ctx.workdir, "cases", "late_declarations")
+        shutil.rmtree(root, ignore_errors=True)
+        outs = ("cpp:\n  sourcesOutputDir: ../out/cpp\n  generateHDF5: false\n  generateCMakeLists: false\n  overrideArrayHeader: %s\npython:\n  outputDir: ../out/python\n"
+                "matlab:\n  outputDir: ../out/matlab\njson:\n  outputDir: ../out/json\n" % cxx.ARRAY_HEADER)
+        common.write_tree(root, {"pkg/_package.yml": "namespace: Late\n" + outs, "pkg/model.yml": model})
+        res = check_outputs(ctx, root, os.path.join(root, "pkg"), home, "definitions used before they are declared (map keys, enum bases, items, cases, type arguments) and numeric literals in every spelling", "late-declarations", full_cpp=True)
+        ctx.case(("late-declarations",))
+        ctx.count("late-declarations.%s" % res)
+        if res == "rejected":
+            ctx.violation("valid-model-rejected:late-declarations", "the late-declaration model is rejected", {"case_dir": root})
+        elif res != "bad":
+            shutil.rmtree(root, ignore_errors=True)
+    late_declarations()
+
     # (iv) init scaffolds
     def init(nm):
         root = os.path.join(ctx.workdir, "cases", "init_%s" % nm[:30])
